@@ -280,7 +280,9 @@ class WebSocket:  # pragma: no cover
         event = await self.asgi_receive()
         if event['type'] != 'websocket.receive':
             raise OSError()
-        return event.get('bytes') or event.get('text')
+        if event.get('bytes') is not None:
+            return event['bytes']
+        return event.get('text')
 
 
 _async = {
